@@ -242,7 +242,8 @@ RULES = [
 LEVEL_TEXT = ("Interval abstract interpretation and wiring rules on MIR: every overflow/underflow/division check in the keepalive, announcement-interval, "
               "expiry and back-off computations is proved for all u16/u32 settings; the interval is the minimum of the own keepalive and a value derived "
               "from the smallest advertised timeout; only node-info and keepalive messages refresh a peer; expired peers are removed, cleared and "
-              "re-dialled; the back-off interval provably stays within [1, 3600] s between observations and configured entries are never dropped.")
+              "re-dialled; the back-off interval provably stays within [1, 3600] s between observations and configured entries are never dropped."
+              " The minimum over the peers' advertised timeouts is recomputed for every announcement (the scan dominates the store).")
 LEVEL_NOTE = ("Partial: decides C15.R1-R5. Not decided: 'strictly shorter than the smallest advertised timeout' as a relation over all value pairs, simulated "
               "meshes, the 48 h back-off schedule. Assumption: the clock value stays below 2^62 s.")
 TECHNIQUE = "interval abstract interpretation with field invariants (assume-guarantee), taint, who-may-write, loop-exit classification on MIR"
